@@ -7,8 +7,12 @@ its datastore write, Crash at every point, Reopen, and the admission pipeline of
       BasicConnectionGater over a datastore whose writes stop at a gate (apply / fail / crash before / crash
       after), rule lists + raw store + all Intercept* answers over an address-form matrix compared after
       every step, the statement's clauses evaluated from the harness's own ledger of returned calls,
-  (3) walks of the composition instance executed with real swarms over loopback TCP, QUIC and WebSocket in
-      both directions (recording transports and gaters)."""
+  (3) every transition of the network instances executed with real swarms over loopback, consultation by
+      consultation: the gated host's Intercept* calls and transport Dial calls are stopped and released one at a
+      time as the model's stages say, so rule calls land between the stages as in the model; attempts start from
+      what the swarm already holds (nothing / relayed / direct) and are made with every dial option (plain,
+      ForceDirectDial, SimultaneousConnect client/server, both = a real QUIC hole punch, NewStream NoDial /
+      AllowLimitedConn); TCP, QUIC, WebSocket, WebTransport and WebRTC listeners."""
 import concurrent.futures as cf
 import os
 
@@ -50,7 +54,8 @@ def exhaustive_instances(ctx):
             # both families, all four subnets: persistence only
             inst("persist7", ("p2",), ("a2", "a6"), ("n31", "n8", "n32", "n128")),
             # calls, faults and attempts from three endpoints over two transports interleaved
-            inst("mixed5", ("p2",), ("a2", "a6"), ("n31", "n8"), eps=("e22", "e33", "e66"), tpts=("tcp", "quic")),
+            inst("mixed5", ("p2",), ("a2", "a6"), ("n31", "n8"), eps=("e22", "e33", "e66"), tpts=("tcp",)),
+            inst("paths3x", ("p2",), ("a2",), ("n31",), eps=("e22",), tpts=("tcp", "quic"), pres=ALL_PRES, opts=ALL_OPTS),
         ]
     return [inst("mixed4", ("p2",), ("a2", "a6"), ("n31",), eps=("e22", "e33", "e66"), tpts=("tcp",)),
             # every way an attempt can be made x what the swarm already holds, interleaved with rule calls and faults
@@ -190,15 +195,15 @@ def _printed(args):
         k = _kind(op)
         kinds[k] = kinds.get(k, 0) + 1
     hdr = {"name": name, "conf": conf[0], "edges": g.n_edges(), "states": g.n_states(),
-           "state_layout": "[mem, disk, up, [call kind, rule, pc], [att dir, peer, ip, tpt, next stage]]"}
+           "state_layout": "[mem, disk, up, [call kind, rule, pc], [att dir, peer, ip, tpt, next stage, conn held, dial option], listed]"}
     if mode == "cover":
         walks = g.covering_walks(seed=ctx.seed, max_len=150)
-        if ctx.tier == "thorough":
+        if ctx.tier == "thorough" and g.n_edges() < 50000:
             walks += g.covering_walks(seed=ctx.seed + 7919, max_len=250)
     else:
         n, depth = mode
         walks = g.random_walks(n, depth, seed=ctx.seed)
-    if name.startswith("net") and ctx.tier == "thorough":
+    if beh_dir.endswith("net") and ctx.tier == "thorough":
         # the same transitions again along other paths, with other address forms chosen by the harness
         walks += g.covering_walks(seed=ctx.seed + 104729, max_len=100)
     if beh_dir.endswith("net"):
@@ -236,8 +241,11 @@ def run(ctx):
         fn = [pr.submit(_printed, (ctx, i, net_dir, net_mode)) for i in ninsts]
         probe_inst = inst("probe3", ("p2",), ("a2",), ("n31",), eps=("e22", "e23"))
         fa = pr.submit(_exhaustive, (ctx, ainst, 1))
-        fg = [pr.submit(_probe, (ctx, probe_inst, p, isp)) for p, isp in
-              (("ReachMemDiskDiffer", False), ("ReachFreeAfterReopen", False), ("ReachAdmittedWhileSomeRule", True))]
+        # (quick: the first two are implied by the replayed transition kinds write:ok / crash:atwrite + reopen, which are guarded)
+        probes = (("ReachMemDiskDiffer", False), ("ReachFreeAfterReopen", False), ("ReachAdmittedWhileSomeRule", True))
+        fg = [pr.submit(_probe, (ctx, probe_inst, p, isp)) for p, isp in (probes if thorough else probes[2:])]
+        hp_inst = inst("probehp", ("p2",), ("a2",), (), eps=("e22",), tpts=("quic",), faults=(), pres=("none", "relayed"), opts=("hps",))
+        fg.append(pr.submit(_probe, (ctx, hp_inst, "ReachHolePunchArrivalRefused", True)))
         rres = [f.result() for f in fr]
         nress = [f.result() for f in fn]
         guards = [f.result() for f in fg]
@@ -283,7 +291,7 @@ def run(ctx):
               "attempts_pre_relayed", "attempts_pre_direct", "attempts_end_reused", "attempts_end_noconn",
               "attempts_holepunch_admitted", "attempts_holepunch_refused_at_listener",
               "attempts_with_interleaved_rule_calls") + tuple("attempts_opt_" + o for o in ALL_OPTS):
-        if not nx.get(k):
+        if not nx.get(k) and not ctx.violations:      # a violation found is never masked by a guard
             raise MachineryError("vacuity guard: network composition ran no %s" % k)
 
     states = sum(r[1] for r in eres) + sum(r[1] for r in rres) + sum(r[1] for r in nress) + ares[1]
@@ -312,15 +320,17 @@ def run(ctx):
         "a datastore write that returns an error has not been applied; a call that returned an error obliges nothing new, a call interrupted by a crash may or may not have taken effect",
         "the in-memory update and the successful return of a call are one step (no observer can separate them)",
         "subnets are given as net.ParseCIDR produces them (network number masked) in IPv4, IPv4-mapped and mixed-length forms; the spelling with host bits set is exercised by the regression instance alias4 (both spellings are one rule in the model, as in the code since 9a893a1; the harness ledger keeps obligations per spelling and lets an opposite call on the other spelling make them lapse, so it does not presume the identification); non-contiguous masks are outside the model (BlockSubnet accepts one and the next NewBasicConnectionGater fails on it: observed, not judged)",
-        "the gated host's swarm is the one the statement speaks about: a QUIC dialer may see its connection established and then closed with the gated error code; only the gated host's Connected notifications / ConnsToPeer are L1",
+        "the gated host's swarm is the one the statement speaks about: a QUIC dialer may see its connection established and then closed with the gated error code; only the gated host's Connected notifications / ConnsToPeer / DialPeer results are L1",
+        "a block that lands AFTER the consultation responsible for it (peer: InterceptPeerDial / inbound InterceptSecured; address: InterceptAddrDial / InterceptAccept) is not required to stop the connection (inherent check-then-act window); L1 = blocked before the attempt began, or in force at every consultation of the connection (for a connection reaching a listener, hole punch included: from its arrival on)",
+        "simultaneous connect as server over TCP/WebSocket needs a true simultaneous open from the remote: those attempts are followed up to the transport dial only; WebSocket and WebRTC dialers cannot be bound to a source address (used from ::1 / with the address rule ::/0)",
         "loopback networking (127.0.0.1-3, ::1) works; a network time-out is a machinery failure, never a verdict",
     ]}
 
 
 MANIFEST = {
-    "technique": "TLA+ spec (C10_Gater.tla) of the gater's persisted and in-memory rule sets, the Block*/Unblock* calls cut at their datastore write, crashes at every point, reopening, and the admission pipeline of a connection attempt; model-checked exhaustively with TLC; every transition of the printed instances replayed on the real BasicConnectionGater over a datastore that can fail or stop the process at any write, with rule lists, raw store and every Intercept* answer over a matrix of address forms compared after each step; walks of the composition instance executed with real swarms over loopback TCP, QUIC and WebSocket in both directions",
+    "technique": "TLA+ spec (C10_Gater.tla) of the gater's persisted and in-memory rule sets, the Block*/Unblock* calls cut at their datastore write, crashes at every point, reopening, and the admission pipeline of a connection attempt; model-checked exhaustively with TLC; every transition of the printed instances replayed on the real BasicConnectionGater over a datastore that can fail or stop the process at any write, with rule lists, raw store and every Intercept* answer over a matrix of address forms compared after each step; every transition of the network instances executed on real swarms over loopback (TCP, QUIC, WebSocket, WebTransport, WebRTC) with the gated host's Intercept* and transport Dial calls stopped and released one at a time as the model's stages say",
     "category": "model_checking",
-    "text": "TLC checks on every reachable state that what the successfully returned calls oblige is on disk at every moment (so at every crash point) and in every running process (Durable), that the datastore write precedes the in-memory update, that an attempt during all of whose consultations one matching rule was in memory is never admitted and never reaches the transport dial, and that refusals happen at accept (address/subnet) or right after the handshake (peer). Covering walks over the complete printed graphs (each source state x each call step x each fault: failed write, crash before/after the write, crash when idle; consultations interleaved with rule changes) drive the real gater; argument forms of the rules (4-/16-byte IPs, IPv4 / IPv4-mapped / mixed CIDRs) vary per call. After each step ~170 address forms (ports and trailing components, ws/quic/webtransport/webrtc, /p2p suffix, circuit via a relay at the address, bare IP, IPv4-mapped IPv6 in three spellings, expanded IPv6, ip6zone, subnet first/last/adjacent addresses, dns/dnsaddr/circuit/unix without IP) are evaluated through every Intercept* function and the statement's clauses are decided from the harness's own ledger (blocked = Block returned success and nothing since). The composition test covers every transition of an Exclusive instance (64 rule sets x 3 remotes at 127.0.0.2, 127.0.0.3, ::1 x 2 directions x TCP/QUIC/WebSocket, plus restarts of the gater) with real DialPeer calls between a gated swarm and the remotes, with recording transports, gaters and notifiees; outbound addresses also as /p2p-suffixed, /dns4|6 (resolved by a stub resolver) and IPv4-mapped forms.",
-    "note": "Trusted: TLC, the harness ledger and projections (public API only: ListBlocked*, Intercept*), the gate in the datastore wrapper, loopback networking. Disagreement with the model that the ledger does not condemn (rule set while a call is in flight, raw keys, which gate refuses, error classes, refusal of something never blocked) is L2 only. Real sockets: TCP, QUIC and WebSocket (WebSocket inbound only from ::1, its dialer cannot be bound to a source address); WebTransport and WebRTC listeners (own gating call sites) are not exercised. Concurrent Block*/Unblock* calls on the same rule are not modelled (two overlapping calls on one rule can leave memory and datastore in different orders). Regression instance alias4: a subnet blocked with host bits set is listed masked, enforced and unblockable by its listed value before and after a reopen (finding fixed by 9a893a1; the former counterexample is the first replayed walk).",
+    "text": "TLC checks on every reachable state that what the successfully returned calls oblige is on disk at every moment (so at every crash point) and in every running process (Durable), that the datastore write precedes the in-memory update, that an attempt during all of whose consultations one matching rule was in memory is never admitted and never reaches the transport dial, and that refusals happen at accept (address/subnet) or right after the handshake (peer). Covering walks over the complete printed graphs (each source state x each call step x each fault: failed write, crash before/after the write, crash when idle; consultations interleaved with rule changes) drive the real gater; argument forms of the rules (4-/16-byte IPs, IPv4 / IPv4-mapped / mixed CIDRs) vary per call. After each step ~170 address forms (ports and trailing components, ws/quic/webtransport/webrtc, /p2p suffix, circuit via a relay at the address, bare IP, IPv4-mapped IPv6 in three spellings, expanded IPv6, ip6zone, subnet first/last/adjacent addresses, dns/dnsaddr/circuit/unix without IP) are evaluated through every Intercept* function and the statement's clauses are decided from the harness's own ledger (blocked = Block returned success and nothing since). The admission pipeline of the model is parameterised by what the swarm already holds for the peer (nothing / a relayed connection / a direct one) and by how the attempt is made (DialPeer plain, ForceDirectDial, SimultaneousConnect client/server, both; NewStream with NoDial / AllowLimitedConn), with the exits that create no connection (re-use, no dial), the transport dial, the arrival of a connection at a listener and the hole-punch hand-over (QUIC listener -> waiting Dial) as stages; TLC checks that once a Block call has returned no new connection is admitted and no transport dial starts, whatever the path, and that every path passes the consultations the statement names. The network instances are executed on real swarms: net6 (64 rule sets x 3 remotes x 2 directions x TCP/QUIC/WebSocket, restarts), paths (3 x 8 x 2 paths x 4 rule sets), race (rule calls interleaved with the stages: the harness stops every Intercept* and transport Dial call of the gated host and releases them as the model says; the hole punch is a real one, the remote dialling the listener from the punched address), xports/xrtc (QUIC, WebTransport, WebRTC listeners); the recording wrapper proves which Intercept* call was made with which direction, in which order (L2 against the model's stage list).",
+    "note": "Trusted: TLC, the harness ledger and projections (public API only: ListBlocked*, Intercept*), the gate in the datastore wrapper, loopback networking. Disagreement with the model that the ledger does not condemn (rule set while a call is in flight, raw keys, which gate refuses, error classes, refusal of something never blocked) is L2 only. Real sockets: TCP, QUIC, WebSocket, WebTransport, WebRTC-direct (WebSocket/WebRTC inbound only from ::1; WebRTC with the address rule ::/0 because it picks its own source address). The relayed connection is a WebSocket connection whose transport reports Proxy()==true and a limited connection (no circuit relay is run). Concurrent Block*/Unblock* calls on the same rule are not modelled (two overlapping calls on one rule can leave memory and datastore in different orders). Regression instance alias4: a subnet blocked with host bits set is listed masked, enforced and unblockable by its listed value before and after a reopen (finding fixed by 9a893a1; the former counterexample is the first replayed walk).",
     "engines": [{"name": "C10_Gater", "path": "spec/C10_Gater.tla", "serves_properties": ["C10"], "kind_free_text": "TLA+ spec + TLC exhaustive + full-transition replay with fault injection + real-swarm composition"}],
 }
